@@ -144,9 +144,14 @@ func Load(dir string, tags string, env []string) (*Program, error) {
 
 // FuncKey is the stable name of a function: "pkg/consensus.(*Executer).process",
 // "pkg/db.New", anonymous: "pkg/x.F$1".
+var oldKeyOverride = map[*ssa.Function]string{}
+
 func FuncKey(fn *ssa.Function) string {
 	if fn == nil {
 		return "<nil>"
+	}
+	if k, ok := oldKeyOverride[fn]; ok {
+		return k
 	}
 	pkg := ""
 	if fn.Pkg != nil && fn.Pkg.Pkg != nil {
@@ -247,7 +252,35 @@ func (p *Program) applyRenames() []string {
 			}
 		}
 	}
-	if len(oldName) > 0 {
+	// receiver kind changed (value ↔ pointer receiver) with the name kept: the same method
+	toggle := func(g string) string {
+		i := strings.LastIndex(g, "(")
+		if i < 0 || !strings.HasSuffix(g, ")") {
+			return ""
+		}
+		if strings.HasPrefix(g[i:], "(*") {
+			return g[:i] + "(" + g[i+2:]
+		}
+		return g[:i] + "(*" + g[i+1:]
+	}
+	for g, ms := range missing {
+		tg := toggle(g)
+		if tg == "" {
+			continue
+		}
+		for _, m := range ms {
+			base := m[strings.LastIndex(m, ".")+1:]
+			for _, fn := range fresh[tg] {
+				if fn.Name() == base {
+					if _, done := oldKeyOverride[fn]; !done {
+						oldKeyOverride[fn] = m
+						notes = append(notes, FuncKey(fn)+" is "+m+" with the other receiver kind")
+					}
+				}
+			}
+		}
+	}
+	if len(oldName) > 0 || len(oldKeyOverride) > 0 {
 		p.Funcs = map[string]*ssa.Function{}
 		for _, fn := range p.OwnFuncs {
 			p.Funcs[FuncKey(fn)] = fn
